@@ -204,7 +204,7 @@ class CentralizedTaskingEngine(TaskingEngine):
                 sensor_position_set.add(position_key)
             else:
                 obs_dict = observation.makeDictionary()
-                msg = f"Dropped duplicate observation: {obs_dict.sensor_id} of {obs_dict.target_id} at {obs_dict.julian_date}"
+                msg = f"Dropped duplicate observation: {obs_dict['sensor_id']} of {obs_dict['target_id']} at {obs_dict['julian_date']}"
                 self.logger.warning(msg)
 
         if imported_observations:
@@ -218,7 +218,7 @@ class CentralizedTaskingEngine(TaskingEngine):
     def _attachObsMetadata(self, observation: Observation) -> Observation:
         """Attach measurement metadata to `observation` since it's not stored with the :class:`.Observation`."""
         sensor_agent = ray.get(self._sensor_store[observation.sensor_id])
-        observation.measurement = sensor_agent.measurement
+        observation.measurement = sensor_agent.sensors.measurement
         return observation
 
     def getCurrentTasking(self, julian_date: JulianDate) -> Task:
